@@ -13,6 +13,7 @@ lexer_layer(run):
 from __future__ import annotations
 
 import os
+import re
 from typing import List, Optional
 
 from .. import lexspec as ls
@@ -39,18 +40,26 @@ def lexer_obligations(sess: rx.Session, tier: str) -> List[rx.Obligation]:
     return obs
 
 
+MUTANTS = [
+    rx.Mutant("drop re.IGNORECASE", lambda sp: rx.respec(sp, flags=sp.flags & ~re.I), ["caseflip:"]),
+    rx.Mutant("eq with literal spaces", rx.edit_replace(r"\s+eq\s+", " eq "), ["layout:eq"]),
+    rx.Mutant("not with one literal space", rx.edit_replace(r"not\s+", "not "), ["layout:not"]),
+    rx.Mutant("WS rule matches a single character", rx.edit_replace(r"(?P<WS>\s+)", r"(?P<WS>\s)"), ["layout:WS"]),
+]
+
+
 def lexer_layer(run: Run, sess: Optional[rx.Session] = None, progress: bool = False) -> Optional[rx.Session]:
     """Adds the Engine A obligations of C19 to `run`.  Returns the session (None when the lexer is not encodable)."""
     tier = run.tier
     if sess is None:
         try:
             sess = rx.Session(run, {N_CASE, N_WS})
+            sess.fill(run)
+            sess.validate(run, str(REPO / "tests"), 400 if tier == "quick" else 4000)
         except rx.NotEncodable as e:
             print(f"[{run.pid}] the current lexer cannot be encoded: {e}", flush=True)
             run.inconclusive("encode-lexer", "encode", f"not encodable: {e}")
             return None
-        sess.fill(run)
-        sess.validate(run, str(REPO / "tests"), 400 if tier == "quick" else 4000)
     layout = ls.layout_chars(sess.alphabet.chars)
     run.bounds.update({"lexer_text_length_N": N_CASE, "whitespace_run_length": "1..3 on each side of an operator",
                        "whitespace_characters": [f"U+{ord(c):04X}" for c in layout],
@@ -58,6 +67,8 @@ def lexer_layer(run: Run, sess: Optional[rx.Session] = None, progress: bool = Fa
     run.outside += ["texts longer than 16 characters for the case-flip obligation (keywords and literal prefixes are shorter)",
                     "white-space runs longer than 3 next to an operator (the WS-maximal-run obligation covers runs up to 16)"]
     sess.drive(lexer_obligations(sess, tier), timeout=120 if tier == "quick" else 600, progress=progress)
+    if tier == "thorough" or os.environ.get("VERIF_SELFTEST"):
+        rx.selftest(run, sess.spec, MUTANTS, {N_CASE, N_WS}, [], lambda s2: lexer_obligations(s2, tier), timeout=120, progress=progress)
     return sess
 
 
@@ -191,5 +202,6 @@ def main() -> int:
     sess = lexer_layer(run, progress=progress)
     sub.join()
     run.assumptions.append("this run covers the lexer and token-action layers of C19 only (parser layouts and backends are separate layers)")
+    rx.attach_results(run)
     code = run.finish()
     return 2 if sess is None else code
